@@ -227,6 +227,10 @@ def run(ctx):
         if cands and rng.random() < 0.5:
             nm = rng.choice(cands)
             uv = (nm, rng.choice(UNIT_VARIANTS[nm]))
+            if nm != 'Reservoir Life Cycle' and rng.random() < 0.7:
+                # a value with all its digits (not one that happens to be short in the documented unit): conversions that
+                # round, truncate or re-format the number on the way in must show
+                p[nm] = repr(float(p[nm]) * (1.0 + rng.uniform(-1e-3, 1e-3)))
         jobs.append({'fn': 'gxv.props.c17:hip_job', 'args': {'params': p, 'k_area': ka, 'k_thick': kt, 'unit_variant': uv},
                      'timeout': 300})
     import hashlib
